@@ -114,13 +114,18 @@ theorem deliverPlain_faithful (order : List Proto.CfgField) (m : EMeta)
 
 theorem ofPMap_perm {a b : Proto.NodeMap} (h : a.Perm b) : (ofPMap a).Perm (ofPMap b) := h.map _
 
-/-- **compressed encoding**, for any lossless codec: the proxy parses `m` up to the order of the
-groups (slot-less masters included) -/
+/-- **compressed encoding**, for any lossless codec.  Since /repo 23e5d8f the proxy compacts every
+range list of the decoded blob (as the textual form's `RangeList::parse` does), so what it parses
+is `(toProto m).compacted` up to the order of the groups (C17 `parseWith_compressed`).  For a meta
+whose range lists are already in `compact` normal form (`hcmp`; what the broker serves: `SlotInv`'s
+`NormalRanges`) that is `m` itself, slot-less masters included. -/
 theorem deliverCompressed_faithful (c : Codec) (m : EMeta) (hc : m.compress = true)
-    (he : m.epoch ≤ u64Max) (hr : ReprData (toProto m).data) :
+    (he : m.epoch ≤ u64Max) (hr : ReprData (toProto m).data)
+    (hcmp : (toProto m).compacted = toProto m) :
     ∃ m', deliverCompressed c.enc c.dec m = .ok (m', true) ∧ WireFaithful m m' := by
   obtain ⟨pm, hp, _, e2, e3, e4, e5, e6, _⟩ :=
     Proto.parseWith_compressed c (toProto m) rfl he hc hr
+  rw [hcmp] at e2 e3 e4 e5 e6
   refine ⟨ofProto pm, ?_, ?_⟩
   · unfold deliverCompressed; rw [hp]
   · have hl : (ofProto pm).loc.Perm m.loc := by
